@@ -520,6 +520,8 @@ type Contract struct {
 	Inline   bool
 	Pure     bool
 	PureCallbacks bool // precondition: function-typed parameters do not write pre-existing memory
+	FieldFn  bool // contract of the function values stored in a struct field (callback protocol)
+	ParamOffset int // derived contracts: index of the first parameter the names are bound to
 	FuncType bool // contract of a named function type: holds for every function value of that type
 	ParamNames []string // functype-derived contracts: the type's parameter names, bound by position
 	CopyFamily bool // a DeepCopy method: contract synthesised from the type declaration (C18)
@@ -575,7 +577,7 @@ func (cs *ContractSet) LoadContractText(text, path, pkgName string) error {
 			first = t[:j]
 		}
 		switch first {
-		case "spec", "axiom", "lemma", "func", "functype", "assume-contract", "requires", "ensures", "invariant", "ghost", "decreases",
+		case "spec", "axiom", "lemma", "func", "functype", "fieldfn", "assume-contract", "requires", "ensures", "invariant", "ghost", "decreases",
 			"modifies", "nopanic", "pure", "inline", "loop", "inlined-loop", "property", "fresh", "copyof", "callbacks-modify-nothing", "witness":
 			items = append(items, t)
 			lineNo = append(lineNo, i+1)
@@ -700,6 +702,11 @@ func (cs *ContractSet) LoadContractText(text, path, pkgName string) error {
 			}
 			cs.Axioms = append(cs.Axioms, c)
 			cur, curLoop = nil, nil
+		case "fieldfn":
+			key := pkgName + ".fieldfn:" + strings.TrimSpace(rest)
+			cur = &Contract{Key: key, File: path, Loops: map[int]*LoopContract{}, FieldFn: true}
+			cs.Funcs[key] = cur
+			curLoop = nil
 		case "functype":
 			key := pkgName + ".functype:" + strings.TrimSpace(rest)
 			cur = &Contract{Key: key, File: path, Loops: map[int]*LoopContract{}, FuncType: true}
